@@ -23,12 +23,29 @@ def ijob(name, entry, strn, timeout=900, extra=None, mem_checks=False, weight=1)
           "__isoc99_sscanf.0": strn + 2, "__isoc99_sscanf.1": 4, "__isoc99_sscanf.2": 5, "sprintf.0": 7, "sprintf.1": 5, "snprintf.0": 5, "put_dec_u8.0": 10,
           "strchr.0": strn + 2, "nd_string.0": strn + 2}
     for i in range(8):
-        for h in ("harness_v6_bounds", "harness_v6_roundtrip", "harness_v6_reference", "harness_v6_determinism", "harness_v4_roundtrip"):
+        for h in ("harness_v6_bounds", "harness_v6_roundtrip", "harness_v6_reference", "harness_v6_determinism", "harness_v4_roundtrip", "harness_v6_compressed"):
             us["%s.%d" % (h, i)] = 66
     return core.Job(name=name, harness="ipstr.c", entry=entry, defines=["STRN=%d" % strn] + (extra or []), unwind=strn + 4, unwindset=us,
                     timeout=timeout, mem_gb=12, sources=IP_SOURCES, object_bits=9, memory_checks=mem_checks, weight=weight,
                     desc="%s (strings up to %d characters / all address bits symbolic)" % (entry, strn),
                     bounds={"string_chars": strn}, stubs=IP_STUBS)
+
+
+def precheck():
+    """Oracle validation (not the deciding step): reference parsers and libc models vs glibc, natively."""
+    import os, subprocess
+    os.makedirs(core.WORK_ROOT, exist_ok=True)
+    exe = os.path.join(core.WORK_ROOT, "c19_selftest_%d" % os.getpid())
+    p = subprocess.run(["gcc", "-O1", "-w", "-I", core.REPO, "-I", os.path.join(core.VERIF, "lib"), "-o", exe,
+                        os.path.join(core.VERIF, "scripts", "c19_selftest.c")], stdout=subprocess.PIPE, stderr=subprocess.STDOUT, text=True)
+    if p.returncode != 0:
+        return False, "selftest does not compile: " + p.stdout[-500:]
+    r = subprocess.run([exe], stdout=subprocess.PIPE, stderr=subprocess.STDOUT, text=True)
+    try:
+        os.remove(exe)
+    except OSError:
+        pass
+    return r.returncode == 0, r.stdout[-500:]
 
 
 SHAPES_QUICK = [0x00, 0xff, 0x3c, 0xfe, 0x7f, 0x81]
@@ -38,7 +55,15 @@ def jobs(tier):
          ijob("v6_bounds", "harness_v6_bounds", 8, mem_checks=True),
          ijob("v6_determinism_n%d" % n, "harness_v6_determinism", n, timeout=3000 if tier == "thorough" else 900),
          ijob("v6_reference_n%d" % n, "harness_v6_reference", n, timeout=3000 if tier == "thorough" else 900)]
-    shapes = SHAPES_QUICK if tier == "quick" else sorted(set(SHAPES_QUICK + [0xc0, 0x03, 0x18, 0xf0, 0x0f, 0xaa, 0x55, 0xfc, 0xf8, 0x3f, 0x7e, 0xfd, 0xe7, 0xbd]))
+    # every position/length of "::" (incl. "::" for a single group, which no formatter emits) and the form without "::"
+    forms = [(0, 0)] + [(p, l) for p in range(8) for l in range(1, 9 - p)]
+    if tier == "quick":
+        forms = [(0, 0), (0, 8)] + [(p, 1) for p in range(8)] + [(0, 2), (3, 2), (6, 2), (1, 6), (0, 7), (1, 7), (2, 3)]
+    for (pos, ln) in forms:
+        for dg in ((1,) if tier == "quick" else (1, 4)):
+            J.append(ijob("v6_compressed_p%d_l%d_d%d" % (pos, ln, dg), "harness_v6_compressed", 16 if dg == 1 else 40,
+                          extra=["DC_POS=%d" % pos, "DC_LEN=%d" % ln, "DC_DIGITS=%d" % dg], timeout=900))
+    shapes = [] if tier == "quick" else sorted(set(SHAPES_QUICK + [0xc0, 0x03, 0x18, 0xf0, 0x0f, 0xaa, 0x55, 0xfc, 0xf8, 0x3f, 0x7e, 0xfd, 0xe7, 0xbd]))
     for z in shapes:
-        J.append(ijob("v6_roundtrip_z%02x" % z, "harness_v6_roundtrip", 46, extra=["ZMASK=0x%02x" % z], timeout=3000 if tier == "thorough" else 900))
+        J.append(ijob("v6_roundtrip_z%02x" % z, "harness_v6_roundtrip", 46, extra=["ZMASK=0x%02x" % z], timeout=5400, weight=2))
     return J
